@@ -89,18 +89,23 @@ type Signature struct {
 
 // Decode decodes a byte slice into a signature
 func (s *Signature) Decode(b []byte) {
-	open := bytes.LastIndexByte(b, '<')
+	// Mirror Git's split_ident_line (ident.c): the e-mail starts after the
+	// first '<' and ends at the first '>' that follows it; the name is the
+	// text before that '<' without its trailing blanks; the date is looked
+	// for after the last '>' of the line.
+	open := bytes.IndexByte(b, '<')
+	if open == -1 {
+		return
+	}
+	mailEnd := bytes.IndexByte(b[open+1:], '>')
+	if mailEnd == -1 {
+		return
+	}
+	mailEnd += open + 1
 	closeBracket := bytes.LastIndexByte(b, '>')
-	if open == -1 || closeBracket == -1 {
-		return
-	}
 
-	if closeBracket < open {
-		return
-	}
-
-	s.Name = string(bytes.Trim(b[:open], " "))
-	s.Email = string(b[open+1 : closeBracket])
+	s.Name = string(bytes.TrimRight(b[:open], " "))
+	s.Email = string(b[open+1 : mailEnd])
 
 	hasTime := closeBracket+2 < len(b)
 	if hasTime {
